@@ -47,24 +47,28 @@ type Out struct {
 
 // emit executes op on the real code and prints the line
 func (o *Out) emit(prop string, op string, args ...string) {
-	obs := execOp(op, args)
+	args, obs := execOp(op, args)
 	o.id++
 	fmt.Fprintf(o.w, "%d %s %s %s => %s\n", o.id, prop, op, strings.Join(args, " "), obs)
 	o.w.Flush()
 }
 
 // execOp dispatches an operation line to the code under test
-func execOp(op string, args []string) (obs string) {
+func execOp(op string, args []string) (nargs []string, obs string) {
+	nargs = args
 	defer func() {
 		if r := recover(); r != nil {
 			obs = "panic " + sanitize(fmt.Sprint(r))
 		}
 	}()
+	if g, ok := opsArgs[op]; ok { // ops whose canonical arguments depend on the run (map order)
+		return g(args)
+	}
 	f, ok := ops[op]
 	if !ok {
-		return "bad-op"
+		return args, "bad-op"
 	}
-	return f(args)
+	return args, f(args)
 }
 
 func sanitize(s string) string {
@@ -81,6 +85,7 @@ func sanitize(s string) string {
 }
 
 var ops = map[string]func([]string) string{}
+var opsArgs = map[string]func([]string) ([]string, string){}
 var suites = map[string]func(o *Out, r *Rng, n int, tier string){}
 
 func main() {
@@ -120,8 +125,8 @@ func main() {
 			if len(t) < 3 {
 				continue
 			}
-			obs := execOp(t[2], t[3:])
-			fmt.Fprintf(out.w, "%s %s %s %s => %s\n", t[0], t[1], t[2], strings.Join(t[3:], " "), obs)
+			nargs, obs := execOp(t[2], t[3:])
+			fmt.Fprintf(out.w, "%s %s %s %s => %s\n", t[0], t[1], t[2], strings.Join(nargs, " "), obs)
 		}
 	default:
 		fmt.Fprintln(os.Stderr, "unknown command")
